@@ -63,6 +63,75 @@ Theorem C06_entries_intact : forall origin name seq1 es path seenby,
 Proof. exact announce_entries_intact. Qed.
 Print Assumptions C06_entries_intact.
 
+(** Re-flooding (HandleRouteAdvertise): what a forwarding agent emits for a
+    received group decodes, at the next agent, to that group with every
+    metric one higher, under the origin's own sequence number, with the
+    forwarder added to path and seen-by, and still fits a frame payload. *)
+Theorem C06_reflooded_group_intact : forall local origin name seq g path seenby,
+  lenN origin = 16 -> lenN name < 256 -> seq < two64 ->
+  wfb idlist (local :: path) = true -> wfb idlist (seenby ++ [local]) = true ->
+  forallb (wfb Route_c) g = true -> group_ok g ->
+  exists p, reflood local origin name seq g path seenby = Some p /\
+            decode_RA p = Some (origin, (name, (seq, (map bump_metric g,
+                             (local :: path, (Some (false, enc idlist (local :: path)), seenby ++ [local])))))) /\
+            lenN p <= max_payload.
+Proof. exact reflood_intact. Qed.
+Print Assumptions C06_reflooded_group_intact.
+
+(** ... and the re-flooded group satisfies the splitter's bounds again, as does
+    whatever part of a fitting group is still stored, in whatever order the
+    tables list it: every stored foreign group fits. *)
+Theorem C06_stored_groups_fit :
+  (forall g, forallb (wfb Route_c) g = true -> group_ok g ->
+     forallb (wfb Route_c) (map bump_metric g) = true /\ group_ok (map bump_metric g)) /\
+  (forall g part rest, Permutation.Permutation (part ++ rest) g -> group_ok g -> group_ok part).
+Proof. exact (conj bump_group group_ok_part). Qed.
+Print Assumptions C06_stored_groups_fit.
+
+(** Replay (SendFullTable), one stored foreign group: it is ONE advertisement,
+    carries the sequence number its origin gave it, lists the path as seen-by,
+    and decodes to exactly its routes. *)
+Theorem C06_replayed_group_is_one_advertisement_with_its_sequence : forall origin name seq g path,
+  lenN origin = 16 -> lenN name < 256 -> seq < two64 ->
+  wfb idlist path = true -> forallb (wfb Route_c) g = true -> group_ok g ->
+  exists p, replay_foreign origin name seq g path = [Some p] /\
+            decode_RA p = Some (origin, (name, (seq, (g, (path, (Some (false, enc idlist path), path)))))) /\
+            lenN p <= max_payload.
+Proof. exact replay_group_intact. Qed.
+Print Assumptions C06_replayed_group_is_one_advertisement_with_its_sequence.
+
+(** Replay, the whole foreign part of a table: for EVERY list of stored groups
+    (several of them may belong to one (origin, sequence): the agent table
+    keeps a presence route per next hop) the replay sends one advertisement
+    per selected group, NO TWO WITH THE SAME (origin, sequence) - the
+    receiver's seen cache therefore drops none -, every (origin, sequence) of
+    the table is represented, and what the receiver decodes is exactly the
+    routes of the selected groups.  (The replaying agent's own routes are
+    announced as by C06_announcements_intact, under its own id and fresh
+    consecutive numbers: [replay_local].) *)
+Theorem C06_replay_never_repeats_origin_and_sequence : forall name_of gs,
+  Forall (rgroup_ok name_of) gs ->
+  exists payloads,
+    replay_table name_of gs = map Some payloads /\
+    adv_keys payloads = map rg_key (select_groups gs) /\
+    NoDup (adv_keys payloads) /\
+    (forall k, In k (map rg_key gs) -> In k (adv_keys payloads)) /\
+    learned payloads = concat (map (fun g : rgroup => snd (snd (snd g))) (select_groups gs)) /\
+    Forall (fun p => lenN p <= max_payload) payloads.
+Proof. exact replay_table_intact. Qed.
+Print Assumptions C06_replay_never_repeats_origin_and_sequence.
+
+(** Non-vacuity of the replay theorem, and the behaviour before the selection
+    was added: a table in which one advertisement's routes carry two paths has
+    two groups with the same (origin, sequence); one advertisement is replayed. *)
+Theorem C06_replay_witness :
+  Forall (rgroup_ok (fun _ => [])) two_path_table /\
+  map rg_key two_path_table = [(id_a, 5); (id_a, 5)] /\
+  map rg_key (select_groups two_path_table) = [(id_a, 5)] /\
+  length (replay_table (fun _ => []) two_path_table) = 1%nat.
+Proof. exact two_path_table_ok. Qed.
+Print Assumptions C06_replay_witness.
+
 (** Non-vacuity: a mixed entry list satisfies the hypotheses; the 256-route
     set of the old defect is announced in two advertisements and learned intact. *)
 Theorem C06_witnesses :
@@ -85,8 +154,13 @@ Proof.
 Qed.
 Print Assumptions C06_refuted_pre_fix_count_wrap.
 
-(** The splitter's limits and the wiring of the two announcement builders, as
-    regenerated from flood.go on this run, are the model's. *)
+(** The splitter's limits and the wiring of announcement building,
+    re-flooding and replay, as regenerated from flood.go on this run, are the
+    model's: one advertisement per splitter group; fresh sequence numbers for
+    own routes, the stored one for a replayed foreign group; replay groups
+    keyed by (origin, sequence, path) with one survivor per (origin, sequence);
+    seen-by = path on replays; metric + 1 and unchanged origin/sequence on
+    re-flooding. *)
 Theorem C06_source_facts :
   gen_max_routes_per_adv = max_routes_per_adv /\
   gen_max_route_bytes_per_adv = max_route_bytes_per_adv /\
@@ -95,7 +169,15 @@ Theorem C06_source_facts :
   gen_split_closes_at_max_count = true /\
   gen_split_closes_when_size_would_exceed = true /\
   gen_AnnounceLocalRoutes_one_adv_per_group = true /\ gen_AnnounceLocalRoutes_sequence_per_group = true /\
-  gen_SendFullTable_one_adv_per_group = true /\ gen_SendFullTable_sequence_per_group = true.
+  gen_SendFullTable_one_adv_per_group = true /\
+  gen_SendFullTable_own_routes_fresh_sequence_per_group = true /\
+  gen_SendFullTable_foreign_group_keeps_sequence = true /\
+  gen_SendFullTable_seen_by_is_path = true /\
+  gen_replay_groups_keyed_by_origin_seq_path = true /\
+  gen_replay_one_group_per_origin_seq = true /\
+  gen_replay_prefers_larger_then_shorter_path = true /\
+  gen_reflood_increments_metric = true /\
+  gen_reflood_keeps_origin_sequence_appends_seen_by = true.
 Proof.
   repeat split; try reflexivity. intros. unfold route_wire_size, gen_route_size_const, gen_route_size_per_prefix_byte.
   rewrite N.mul_1_l, N.add_comm, N.add_assoc. reflexivity.
